@@ -29,6 +29,18 @@ def main():
     sel = want & seen if args else want
     missing = sorted(sel - passed)
     print(f"pytest: {tail}")
+    if missing and n != "0":
+        # xdist ordering makes some accelerator tests flaky: confirm regressions serially in one process
+        ids = [m.replace(".", "/", m.split("::")[0].count(".")).replace("::", ".py::", 1) for m in missing]
+        junit2 = os.path.join(out, "junit2.xml")
+        subprocess.run(["/venv/bin/python", "-m", "pytest", "-q", "-p", "no:cacheprovider", "--timeout=900", f"--junitxml={junit2}"] + ids,
+                       cwd="/repo", env=env, stdout=subprocess.PIPE, stderr=subprocess.STDOUT, text=True)
+        ok2 = set()
+        for tc in ET.parse(junit2).getroot().iter("testcase"):
+            if not any(c.tag in ("failure", "error", "skipped") for c in tc):
+                ok2.add(f"{tc.get('classname')}::{tc.get('name')}")
+        print(f"re-ran {len(missing)} suspected regressions serially: {len(set(missing) & ok2)} pass in isolation")
+        missing = sorted(set(missing) - ok2)
     print(f"baseline stable_pass selected={len(sel)} passed={len(sel & passed)} regressions={len(missing)} newly_passing={len(passed - want)}")
     for m in missing[:40]:
         print("REGRESSION", m)
